@@ -101,6 +101,10 @@ pub struct Obl {
     pub eqs: Vec<(String, String, String)>,
     /// extra assumptions that hold for this obligation group only: (lhs repr, op, rhs repr)
     pub given: Vec<(String, String, String)>,
+    /// inequality obligations: (label, lhs repr, op, rhs repr)
+    pub ineqs: Vec<(String, String, String, String)>,
+    /// generalisation points for this group only (see `Out::cuts`)
+    pub cuts: Vec<String>,
 }
 pub struct Out<T: HS> {
     pub obligations: Vec<Obl>,
@@ -109,18 +113,21 @@ pub struct Out<T: HS> {
     /// assumptions: (lhs repr, op, rhs repr)
     pub assumes: Vec<(String, String, String)>,
     pub notes: Vec<String>,
+    /// generalisation points: terms the solver may treat as free variables (sound for proving; e.g. the parameters the
+    /// optimizer arrived at -- what is claimed about the state at alpha-hat holds for every alpha-hat)
+    pub cuts: Vec<String>,
     _p: std::marker::PhantomData<T>,
 }
 impl<T: HS> Out<T> {
     pub fn new() -> Self {
-        Out { obligations: vec![], facts: vec![], assumes: vec![], notes: vec![], _p: Default::default() }
+        Out { obligations: vec![], facts: vec![], assumes: vec![], notes: vec![], cuts: vec![], _p: Default::default() }
     }
     /// the obligation group with this name (created on first use; groups are merged by name)
     pub fn obl(&mut self, name: &str) -> &mut Obl {
         if let Some(i) = self.obligations.iter().position(|o| o.name == name) {
             return &mut self.obligations[i];
         }
-        self.obligations.push(Obl { name: name.to_string(), eqs: vec![], given: vec![] });
+        self.obligations.push(Obl { name: name.to_string(), eqs: vec![], given: vec![], ineqs: vec![], cuts: vec![] });
         self.obligations.last_mut().unwrap()
     }
     pub fn eq(&mut self, name: &str, label: String, lhs: T, rhs: T) {
@@ -129,6 +136,11 @@ impl<T: HS> Out<T> {
         }
         let (l, r) = (lhs.repr(), rhs.repr());
         self.obl(name).eqs.push((label, l, r));
+    }
+    /// inequality obligation `lhs <= rhs`
+    pub fn le(&mut self, name: &str, label: String, lhs: T, rhs: T) {
+        let (l, r) = (lhs.repr(), rhs.repr());
+        self.obl(name).ineqs.push((label, l, "<=".to_string(), r));
     }
     pub fn obligations_push_raw(&mut self, name: &str, label: String, lhs: String, rhs: String) {
         self.obl(name).eqs.push((label, lhs, rhs));
@@ -150,6 +162,19 @@ impl<T: HS> Out<T> {
         let o = self.obl(name);
         if !o.given.contains(&g) {
             o.given.push(g);
+        }
+    }
+    pub fn cut_for(&mut self, name: &str, x: T) {
+        let r = x.repr();
+        let o = self.obl(name);
+        if !o.cuts.contains(&r) {
+            o.cuts.push(r);
+        }
+    }
+    pub fn cut(&mut self, x: T) {
+        let r = x.repr();
+        if !self.cuts.contains(&r) {
+            self.cuts.push(r);
         }
     }
     pub fn fact(&mut self, name: &str, holds: bool, detail: String) {
@@ -179,6 +204,15 @@ impl<T: HS> Out<T> {
                 }
                 o.push_str(&format!("[{},{},{}]", a, json_str(op), b));
             }
+            o.push_str("],\"cuts\":[");
+            o.push_str(&ob.cuts.join(","));
+            o.push_str("],\"ineqs\":[");
+            for (k, (l, a, op, b)) in ob.ineqs.iter().enumerate() {
+                if k > 0 {
+                    o.push(',');
+                }
+                o.push_str(&format!("[{},{},{},{}]", json_str(l), a, json_str(op), b));
+            }
             o.push_str("]}");
         }
         o.push_str("],\"facts\":[");
@@ -195,6 +229,8 @@ impl<T: HS> Out<T> {
             }
             o.push_str(&format!("[{},{},{}]", a, json_str(op), b));
         }
+        o.push_str("],\"cuts\":[");
+        o.push_str(&self.cuts.join(","));
         o.push_str("],\"notes\":[");
         for (i, n) in self.notes.iter().enumerate() {
             if i > 0 {
